@@ -61,6 +61,36 @@ theorem destShard_some {g : Group} {sk : String} {s : Shard} (h : g.DestShard sk
   unfold Group.DestShard at h
   exact ⟨List.mem_of_find?_eq_some h, List.find?_some (p := fun x : Shard => x.Contain sk) h⟩
 
+/-- the routing decision inside a group, taken apart. -/
+theorem routeIn_ok {hash : String → Nat} {M : Meta} {g : Group} {p : Point} {r : Routed}
+    (h : routeIn hash M g p = .ok r) :
+    ∃ sk, r.group = g ∧ shardKeyOf M.name M.key p.tags = .ok sk ∧
+      (M.range = true → r.group.DestShard sk = some r.shard ∧ r.key = sk) ∧
+      (M.range = false → hashInput M sk = some r.key ∧
+        r.group.ShardFor (hash r.key) r.group.shardIdxes = some (some r.shard)) := by
+  unfold routeIn at h
+  split at h
+  · cases h
+  · rename_i sk hsk
+    refine ⟨sk, ?_⟩
+    split at h
+    · rename_i hr
+      split at h
+      · rename_i s hs
+        cases h
+        exact ⟨rfl, hsk, fun _ => ⟨hs, rfl⟩, fun hf => by simp [hr] at hf⟩
+      · cases h
+    · rename_i hr
+      split at h
+      · cases h
+      · rename_i hk hhk
+        split at h
+        · cases h
+        · cases h
+        · rename_i s hs
+          cases h
+          exact ⟨rfl, hsk, fun ht => absurd ht hr, fun _ => ⟨hhk, hs⟩⟩
+
 /-- the routing decision, taken apart. -/
 theorem writePoint_ok {hash : String → Nat} {M : Meta} {p : Point} {r : Routed}
     (h : writePoint hash M p = .ok r) :
@@ -72,27 +102,8 @@ theorem writePoint_ok {hash : String → Nat} {M : Meta} {p : Point} {r : Routed
   split at h
   · cases h
   · rename_i g hg
-    split at h
-    · cases h
-    · rename_i sk hsk
-      refine ⟨sk, ?_⟩
-      split at h
-      · rename_i hr
-        split at h
-        · rename_i s hs
-          cases h
-          exact ⟨hg, hsk, fun _ => ⟨hs, rfl⟩, fun hf => by simp [hr] at hf⟩
-        · cases h
-      · rename_i hr
-        split at h
-        · cases h
-        · rename_i hk hhk
-          split at h
-          · cases h
-          · cases h
-          · rename_i s hs
-            cases h
-            exact ⟨hg, hsk, fun ht => absurd ht hr, fun _ => ⟨hhk, hs⟩⟩
+    obtain ⟨sk, hgr, hsk, h1, h2⟩ := routeIn_ok h
+    exact ⟨sk, by rw [hgr]; exact hg, hsk, h1, h2⟩
 
 /-- **T1 — each accepted point lands in exactly one shard, in the one live group covering its
 timestamp.** `writePoint` is a function, so the decision is deterministic; whenever it accepts,
@@ -228,7 +239,7 @@ theorem write_accepts (hash : String → Nat) (M : Meta) (p : Point) (g : Group)
   obtain ⟨s, hs⟩ := shardFor_total hwf hne (hash (String.ofList (sk.toList.drop (Go.len M.name + 1))))
   refine ⟨⟨g, s, String.ofList (sk.toList.drop (Go.len M.name + 1))⟩, ?_, rfl⟩
   have hlenpos : M.key.length > 0 := by cases hk : M.key <;> simp_all
-  simp [writePoint, hg, hsko, hr, hashInput, hlenpos, Go.dropFrom, hlen, hs]
+  simp [writePoint, routeIn, hg, hsko, hr, hashInput, hlenpos, Go.dropFrom, hlen, hs]
 
 /-! ### shard-group spans -/
 
@@ -292,13 +303,14 @@ def satOpt (S : List String) (ρ : Nat → Point → Bool) (p : Point) : Option 
 `r.shard` of `r.group` and satisfies the condition, then `TargetShards` on that group returns
 that shard (provided it returns at all; `targetShards_total` shows it does) — hash and range
 sharding, every shard key, every hash, every number of shards, every `ρ`. -/
-theorem prune_sound (hash : String → Nat) (M : Meta) (p : Point) (r : Routed)
+theorem prune_sound_in (hash : String → Nat) (M : Meta) (g : Group) (p : Point) (r : Routed)
     (c : Option Cond) (ρ : Nat → Point → Bool) (cap : Nat)
-    (hwf : r.group.WF M.range) (hu : KeysUnique p.tags)
-    (hw : writePoint hash M p = .ok r) (hs : satOpt M.schemaTags ρ p c = true) :
-    ∀ res, targetShards true true cap hash M r.group c = some res → r.shard ∈ res := by
+    (hwf : g.WF M.range) (hu : KeysUnique p.tags)
+    (hw : routeIn hash M g p = .ok r) (hs : satOpt M.schemaTags ρ p c = true) :
+    ∀ res, targetShards true true cap hash M g c = some res → r.shard ∈ res := by
   intro res hres
-  obtain ⟨sk, hg, hsk, hrange, hhash⟩ := writePoint_ok hw
+  obtain ⟨sk, hgr, hsk, hrange, hhash⟩ := routeIn_ok hw
+  subst hgr
   obtain ⟨all, hall, hallmem⟩ := allAlive_some hwf
   -- the written shard is among "all alive shards"
   have hsall : r.shard ∈ all := by
@@ -347,6 +359,20 @@ theorem prune_sound (hash : String → Nat) (M : Meta) (p : Point) (r : Routed)
             rw [hspec] at hhi
             exact targetLoop_sound_hash hash M r.group p.tags r.shard r.key all hr hhi hsf hall hsall
               _ M.name [] res hres (Or.inr ⟨grp, hgm, hext⟩)
+
+/-- **T2** for the single-point write path: the group is the one `groupFor` picks. -/
+theorem prune_sound (hash : String → Nat) (M : Meta) (p : Point) (r : Routed)
+    (c : Option Cond) (ρ : Nat → Point → Bool) (cap : Nat)
+    (hwf : r.group.WF M.range) (hu : KeysUnique p.tags)
+    (hw : writePoint hash M p = .ok r) (hs : satOpt M.schemaTags ρ p c = true) :
+    ∀ res, targetShards true true cap hash M r.group c = some res → r.shard ∈ res := by
+  unfold writePoint at hw
+  split at hw
+  · cases hw
+  · rename_i g hg
+    have hgr : r.group = g := (routeIn_ok hw).choose_spec.1
+    rw [hgr] at hwf ⊢
+    exact prune_sound_in hash M g p r c ρ cap hwf hu hw hs
 
 /-! ### `TargetShards` answers (no panic) -/
 
